@@ -17,9 +17,9 @@ func init() {
 		Level: "exploration",
 		Rule: "case i: either (a) a request whose (protocol, codec, compression) triple the service accepts (from the negotiation model), with arbitrary extra headers " +
 			"(including control headers of other protocols), query strings, bodies that are not valid in the protocol, declared or unknown lengths, HTTP/1.1 or HTTP/2; or (b) a request to a path " +
-			"no endpoint matches, in every client form, with an unknown-endpoint handler installed. The downstream handler answers with an arbitrary status, headers, body bytes, write pattern and trailers. " +
+			"no endpoint matches (including the late case: a real method of a REST-only service that has no binding, called through its RPC path), in every client form, with an unknown-endpoint handler installed. The downstream handler answers with an arbitrary status, headers, body bytes, write pattern and trailers. " +
 			"oracle: deep equality of a snapshot of the request taken before ServeHTTP (method, URL, RequestURI, protocol version, header multimap, Host, ContentLength, body bytes) with what the " +
-			"downstream handler observed, and of what the handler produced with what the recorder received. non-trivial = the request carries a control header or a body; distinct by (kind, form, headers, body class)",
+			"downstream handler observed, and of what the handler produced with what the recorder received; requests whose triple the service accepts are compared whichever path they took. non-trivial = the request carries a control header or a body; distinct by (kind, form, headers, body class)",
 		Assume: []string{"the Proto string (\"HTTP/2\" vs \"HTTP/2.0\") is recorded, the numeric version is compared", "the request context is a child context by design and is not compared"},
 		N:      func(t string) int { return tierN(t, 20000, 300000) },
 		Run:    runC13,
